@@ -86,6 +86,16 @@ Definition files_from_last_checkpoint (all : list file) : list file :=
 
 Definition baseline_rev (v : bytes) : rev := mkRev v 0 0 [] false 1%N.
 
+(** The test of the loop over [migrations[first:idx]] (as fixed: C11-nonlinear-partial-not-resumed):
+    [if i, found := slices.BinarySearchFunc(revs, f, ...); !found || revs[i].Applied != revs[i].Total]
+    -- the file was never applied, or only partially. *)
+Definition out_of_order (revs : list rev) (f : file) : bool :=
+  let '(i, found) := bsearch (map (@r_version hash) revs) (f_version f) in
+  negb found || match nth_error revs i with
+                | Some r => negb (r_applied r =? r_total r)
+                | None => false
+                end.
+
 (** [Executor.Pending]. Returns the decision and, when a baseline revision
     must be written, that revision (the caller performs the write). *)
 Definition pending (c : cfg) (all : list file) (revs : list rev)
@@ -137,7 +147,7 @@ Definition pending (c : cfg) (all : list file) (revs : list rev)
                   | Some first =>
                       if (first <? idx) && negb (match c_order c with LinearSkip => true | _ => false end) then
                         let window := skipn first (firstn idx migrations) in
-                        let skipped := filter (fun f => negb (snd (bsearch (map (@r_version hash) revs) (f_version f)))) window in
+                        let skipped := filter (out_of_order revs) window in
                         match skipped, c_order c with
                         | [], _ => (finish pend, None)
                         | _, NonLinear => (finish (skipped ++ pend), None)
@@ -155,4 +165,5 @@ Definition pending (c : cfg) (all : list file) (revs : list rev)
 End Pending.
 
 Arguments pending {hash}.
+Arguments out_of_order {hash}.
 Arguments baseline_rev {hash}.
